@@ -8,23 +8,29 @@ EXPECTED = {'ImmutableSandboxedEnvironment.is_safe_attribute': "arguments(posonl
                                                     'if not super().is_safe_attribute(obj, attr, value):\n'
                                                     '    return False\n'
                                                     'return not modifies_known_mutable(obj, attr)',
- 'SandboxedEnvironment.call': "arguments(posonlyargs=[], args=[arg(arg='__self'), arg(arg='__context'), "
-                              "arg(arg='__obj')], vararg=arg(arg='args'), kwonlyargs=[], kw_defaults=[], "
+ 'SandboxedEnvironment.call': "arguments(posonlyargs=[arg(arg='__self'), arg(arg='__context'), arg(arg='__obj')], "
+                              "args=[], vararg=arg(arg='args'), kwonlyargs=[], kw_defaults=[], "
                               "kwarg=arg(arg='kwargs'), defaults=[])\n"
                               'if not __self.is_safe_callable(__obj):\n'
-                              "    raise SecurityError(f'{__obj!r} is not safely callable')\n"
+                              '    try:\n'
+                              '        name = repr(__obj)\n'
+                              '    except Exception:\n'
+                              "        name = f'<{type(__obj).__name__} object>'\n"
+                              "    raise SecurityError(f'{name} is not safely callable')\n"
                               'fmt = __self.wrap_str_format(__obj)\n'
                               'if fmt is not None:\n'
                               '    __obj = fmt\n'
                               'return __context.call(__obj, *args, **kwargs)',
  'SandboxedEnvironment.getattr': "arguments(posonlyargs=[], args=[arg(arg='self'), arg(arg='obj'), "
                                  "arg(arg='attribute')], kwonlyargs=[], kw_defaults=[], defaults=[])\n"
+                                 'if isinstance(attribute, str):\n'
+                                 '    attribute = _plain_str(attribute)\n'
                                  'try:\n'
                                  '    value = getattr(obj, attribute)\n'
                                  'except AttributeError:\n'
                                  '    try:\n'
                                  '        return obj[attribute]\n'
-                                 '    except (TypeError, LookupError):\n'
+                                 '    except (TypeError, LookupError, AttributeError):\n'
                                  '        pass\n'
                                  'else:\n'
                                  '    if not self.is_safe_attribute(obj, attribute, value):\n'
@@ -38,16 +44,16 @@ EXPECTED = {'ImmutableSandboxedEnvironment.is_safe_attribute': "arguments(posonl
                                  "arg(arg='argument')], kwonlyargs=[], kw_defaults=[], defaults=[])\n"
                                  'try:\n'
                                  '    return obj[argument]\n'
-                                 'except (TypeError, LookupError):\n'
+                                 'except (AttributeError, TypeError, LookupError):\n'
                                  '    if isinstance(argument, str):\n'
-                                 '        attr = str(argument)\n'
+                                 '        attr = _plain_str(str(argument))\n'
                                  '        try:\n'
                                  '            value = getattr(obj, attr)\n'
                                  '        except AttributeError:\n'
                                  '            pass\n'
                                  '        else:\n'
-                                 '            if not self.is_safe_attribute(obj, argument, value):\n'
-                                 '                return self.unsafe_undefined(obj, argument)\n'
+                                 '            if not self.is_safe_attribute(obj, attr, value):\n'
+                                 '                return self.unsafe_undefined(obj, attr)\n'
                                  '            fmt = self.wrap_str_format(value)\n'
                                  '            if fmt is not None:\n'
                                  '                return fmt\n'
@@ -59,8 +65,14 @@ EXPECTED = {'ImmutableSandboxedEnvironment.is_safe_attribute': "arguments(posonl
                                            "return not (attr.startswith('_') or is_internal_attribute(obj, attr))",
  'SandboxedEnvironment.is_safe_callable': "arguments(posonlyargs=[], args=[arg(arg='self'), arg(arg='obj')], "
                                           'kwonlyargs=[], kw_defaults=[], defaults=[])\n'
+                                          'if isinstance(obj, partial) and (not self.is_safe_callable(obj.func)):\n'
+                                          '    return False\n'
+                                          "call = getattr(type(obj), '__call__', None)\n"
+                                          "icall = getattr(obj, '__call__', None)\n"
                                           "return not (getattr(obj, 'unsafe_callable', False) or getattr(obj, "
-                                          "'alters_data', False))",
+                                          "'alters_data', False) or getattr(call, 'unsafe_callable', False) or "
+                                          "getattr(call, 'alters_data', False) or getattr(icall, 'unsafe_callable', "
+                                          "False) or getattr(icall, 'alters_data', False))",
  'SandboxedEnvironment.unsafe_undefined': "arguments(posonlyargs=[], args=[arg(arg='self'), arg(arg='obj'), "
                                           "arg(arg='attribute')], kwonlyargs=[], kw_defaults=[], defaults=[])\n"
                                           "return self.undefined(f'access to attribute {attribute!r} of "
@@ -68,6 +80,23 @@ EXPECTED = {'ImmutableSandboxedEnvironment.is_safe_attribute': "arguments(posonl
                                           'exc=SecurityError)',
  'SandboxedEnvironment.wrap_str_format': "arguments(posonlyargs=[], args=[arg(arg='self'), arg(arg='value')], "
                                          'kwonlyargs=[], kw_defaults=[], defaults=[])\n'
+                                         'if isinstance(value, partial):\n'
+                                         '    inner = self.wrap_str_format(value.func)\n'
+                                         '    if inner is None:\n'
+                                         '        return None\n'
+                                         '    return partial(inner, *value.args, **value.keywords)\n'
+                                         'if isinstance(value, types.MethodDescriptorType) and value.__name__ in '
+                                         "('format', 'format_map') and issubclass(value.__objclass__, str) or value is "
+                                         'Markup.format or value is Markup.format_map:\n'
+                                         '    method_name = value.__name__\n'
+                                         '\n'
+                                         '    def unbound_wrapper(*args, **kwargs) -> str:\n'
+                                         '        if not args or not isinstance(args[0], str):\n'
+                                         '            raise TypeError(f"descriptor {method_name!r} requires a \'str\' '
+                                         'object")\n'
+                                         '        bound = self.wrap_str_format(getattr(args[0], method_name))\n'
+                                         '        return bound(*args[1:], **kwargs)\n'
+                                         '    return update_wrapper(unbound_wrapper, value)\n'
                                          'if not isinstance(value, (types.MethodType, types.BuiltinMethodType)) or '
                                          "value.__name__ not in ('format', 'format_map'):\n"
                                          '    return None\n'
@@ -129,7 +158,8 @@ EXPECTED = {'ImmutableSandboxedEnvironment.is_safe_attribute': "arguments(posonl
  'modifies_known_mutable': "arguments(posonlyargs=[], args=[arg(arg='obj'), arg(arg='attr')], kwonlyargs=[], "
                            'kw_defaults=[], defaults=[])\n'
                            'for typespec, unsafe in _mutable_spec:\n'
-                           '    if isinstance(obj, typespec):\n'
+                           '    if isinstance(obj, typespec) or (isinstance(obj, type) and issubclass(obj, '
+                           'typespec)):\n'
                            '        return attr in unsafe\n'
                            'return False'}
 EXPECTED_COMPILER = {'CodeGenerator.visit_Call': "arguments(posonlyargs=[], args=[arg(arg='self'), arg(arg='node'), arg(arg='frame'), "
